@@ -7,6 +7,42 @@ ROOT = os.path.dirname(os.path.dirname(os.path.abspath(__file__)))
 ALL = [f"C{k:02d}" for k in range(1, 21)]
 
 CLAIMED = {
+    "C04": dict(
+        text=("TLC checks for ALL bin tables with <=2 (thorough: 3) chromosomes of length <=5 (every composition into bins: uniform, "
+              "short or long last bin, one-bin chromosomes, variable) and ALL (chrom,start,end) that the extent arithmetic of the "
+              "implementation (Extent.tla: fixed-width floor/ceil path or searchsorted path, selected by the recorded bin size as "
+              "inferred by get_binsize) equals the covering run of bins (CoolerData!Covering) and stays inside the chromosome. "
+              "The real Cooler.extent/offset/bins.fetch/pixels.fetch/matrix.fetch are run on a real cooler for every such table "
+              "(<=2 chromosomes x length<=4 in the quick tier) and every range, as tuple/UCSC string/bare name/open-ended, and TLC "
+              "validates every recorded answer (ExtentTrace.tla)."),
+        design_ref="DESIGN.md section 6 C04, section 4.6",
+        note=("Trusted: TLC, structural JSON projection. Empty ranges are judged exactly as the property states (at most one bin, "
+              "touching the position). Index-space queries are C03's business. Bounded scope as stated."),
+        technique="TLA+ model checking (TLC) of extent arithmetic + TLC trace validation of real lookups",
+        category="model_checking"),
+    "C12": dict(
+        text=("TLC checks for all stores on 3 bins, all weight vectors over {1,2,NaN}, all windows, both engines and all span "
+              "partitions that the implementation's weight selection (bias1 from the row range, bias2 from the column range, "
+              "shared only when the ranges are identical; reciprocal for divisive weights) equals raw x W[row] x W[col] "
+              "(RangeQuery.tla). The real API is run with weight columns holding powers of two and NaN (so all products are exact) "
+              "for every window x dense/sparse/pixel output x multiplicative/divisive/default x column names (weight, custom, KR, "
+              "VC, VC_SQRT) and TLC validates each result exactly; a missing column must be an error."),
+        design_ref="DESIGN.md section 6 C12, section 4.5",
+        note=("Trusted: TLC; exactness argument for power-of-two weights in IEEE arithmetic. cooler dump --balanced is covered under "
+              "C16. pydata/sparse output not covered."),
+        technique="TLA+ model checking (TLC) of weight selection + TLC trace validation of real balanced reads",
+        category="model_checking"),
+    "C20": dict(
+        text=("TLC checks that fixed-width binning (transcribed util.binnify) tiles every chromosome-size vector (1-3 chromosomes, "
+              "lengths<=5, widths<=7) exactly, and that for ALL valid bin tables a bin size inferred by the (repaired) get_binsize "
+              "is true (every bin is [k*b, min((k+1)*b, length))) and inferred chromosome sizes are the last ends; the pinned "
+              "inference is kept as InferBinsizeLoose and TLC refutes it (defect F1, fixed). The real binnify / `cooler makebins` / "
+              "parse_bins / get_binsize / get_chromsizes / attributes of created coolers are run on the same spaces and validated "
+              "by TLC (ExtentTrace.tla)."),
+        design_ref="DESIGN.md section 6 C20, section 4.6",
+        note="Trusted: TLC, structural JSON projection. Bounded scope as stated (all compositions of lengths <= 5; sampled larger).",
+        technique="TLA+ model checking (TLC) of binning/inference + TLC trace validation of real tables",
+        category="model_checking"),
     "C03": dict(
         text=("TLC checks exhaustively (all stores on 3 bins with values<=2 symm / <=1 square, 4 bins in the thorough tier; "
               "all windows; both engines; ALL admissible row-span partitions) that the transcription of the query algorithm "
@@ -49,7 +85,7 @@ def main():
             "guard": "COOLER_VERIF",
             "enable": "the harness sets COOLER_VERIF=1 before importing cooler from /repo/src (editable install: always the current working tree)",
             "baseline_off_cmd": "cd /repo && env -u COOLER_VERIF /venv/bin/python -m pytest -ra -q -p no:cacheprovider --timeout=900 --continue-on-collection-errors",
-            "source_commits": [],
+            "source_commits": [],  # no hook commits yet; fix: commits are listed in known_findings.json
             "add_only": True,
         },
         "engines": [{
